@@ -76,6 +76,32 @@ def corrupt_value(rnd, v, tol):
     return 99.5
 
 
+def same_length_corruption(v, tol):
+    """a stored result that differs from v in one character (the rewritten file has the size of
+    the one it replaces); None when that is not clearly more than the tolerance"""
+    if isinstance(v, bool):
+        return (not v) if (tol is None or tol < 0.5) else None
+    if isinstance(v, (int, float)):
+        txt = repr(float(v)) if isinstance(v, float) else repr(v)
+        if 'e' in txt or 'inf' in txt or 'nan' in txt:
+            return None
+        for i, ch in enumerate(txt):           # the most significant digit that can move
+            if ch.isdigit():
+                new = txt[:i] + str((int(ch) + 3) % 10 or 1) + txt[i + 1:]
+                try:
+                    w = type(v)(new)
+                except ValueError:
+                    return None
+                txt2 = repr(float(w)) if isinstance(w, float) else repr(w)
+                if len(txt2) == len(txt) and abs(w - v) > 2.5 * (tol or 0) + 1e-3 * abs(v) + 1e-3:
+                    return w
+                return None
+        return None
+    if isinstance(v, str) and v and v not in values.ERROR_CODES:
+        return v[:-1] + ('y' if v[-1] != 'y' else 'z')
+    return None
+
+
 def gen_case(rnd, tier, index):
     group = index // SITES
     slot = index % SITES
@@ -130,6 +156,22 @@ def gen_case(rnd, tier, index):
     if cfg['output_form'] == 'single':
         cfg['outputs'] = cfg['outputs'][:1]
     cfg['corrupt_seed'] = rnd.randrange(1 << 30)
+    # what the compiler did before it was asked to validate: cells evaluated (part of the graph
+    # exists, the rest is built by validate_calcs), inputs assigned the value they already hold
+    roll = rnd.random()
+    if mode == 'plain' and roll < 0.3:
+        consts = [a for a in dag.constants() if dag.cell[a].get('v') is not None]
+        pre = []
+        for _ in range(rnd.choice((1, 2, 3))):
+            if consts and rnd.random() < 0.6:
+                pre.append({'op': 'set-same', 'a': rnd.choice(consts)})
+            else:
+                pre.append({'op': 'eval', 'a': rnd.choice(dag.order)})
+        cfg['prelude'] = pre
+    # the file validated before, corrected / changed in place and compiled again under the
+    # same name (half of these: stored, not deflated, and altered in one character)
+    if cfg.get('kind') == 'corrupt' and rnd.random() < 0.2:
+        cfg['rewrite'] = rnd.choice(('same-size', 'any'))
     return {'spec': spec, 'cfg': cfg, 'ops': []}
 
 
@@ -147,6 +189,9 @@ def legalise(case):
                           wbgen.is_formula_cell(st.dag.cell[a])]
         if not cfg['outputs']:
             cfg['outputs'] = None
+    if cfg.get('prelude'):
+        cfg['prelude'] = [o for o in cfg['prelude'] if o['a'] in st.all and (
+            o['op'] == 'eval' or not wbgen.is_formula_cell(st.dag.cell[o['a']]))]
     return case
 
 
@@ -199,6 +244,11 @@ def run_case(case):
         else:
             crnd = random.Random(cfg.get('corrupt_seed', 0))
             corrupted = corrupt_value(crnd, stored[site], tol)
+            if cfg.get('rewrite') == 'same-size':
+                alt = same_length_corruption(stored[site], tol)
+                if alt is not None:
+                    corrupted = alt
+                    count('probe:rewritten-file-of-the-same-size')
             stored = dict(stored)
             stored[site] = corrupted
             count('fault:stored-result-corruption')
@@ -270,10 +320,38 @@ def run_case(case):
 
     def body(driver):
         plugin.reset()
-        driver.build_xlsx(sut_spec, stored, strict=False)
+        stored_zip = cfg.get('rewrite') != 'same-size'
+        if cfg.get('rewrite') and kind == 'corrupt':
+            # the consistent file first, under the name the altered one will have
+            driver.build_xlsx(spec, good, strict=False, compress=stored_zip)
+            buf0 = io.StringIO()
+            try:
+                with contextlib.redirect_stdout(buf0):
+                    first = driver.model.validate_calcs(tolerance=tol)
+            except Exception as exc:   # noqa
+                violate('validate_calcs-raised', 'a report',
+                        f'{type(exc).__name__}: {str(exc)[-300:]}', exc=type(exc).__name__)
+                return
+            if first != {}:
+                violate('false-report-clean-file', {}, _show(first))
+                return
+            count('fault:file-rewritten-in-place-between-two-compiles')
+        driver.build_xlsx(sut_spec, stored, strict=False, compress=stored_zip)
         if kind == 'boom':
             plugin.arm('F', exc='RuntimeError', at=1, persistent=True)
         model = driver.model
+        for o in cfg.get('prelude', ()):
+            try:
+                if o['op'] == 'eval':
+                    model.evaluate(o['a'])
+                    count('prelude-evals')
+                else:
+                    if o['a'] not in model.cell_map:
+                        model.evaluate(o['a'])
+                    model.set_value(o['a'], model.cell_map[o['a']].value)
+                    count('fault:input-assigned-the-value-it-holds')
+            except Exception:   # noqa   (a failing cell evaluated early: validate reports it)
+                count('prelude-op-raised')
         arg = outputs
         if outputs and cfg.get('output_form') == 'single':
             arg = outputs[0]
